@@ -87,6 +87,9 @@ func (sll *LinuxSLL) DecodeFromBytes(data []byte, df gopacket.DecodeFeedback) er
 	sll.PacketType = LinuxSLLPacketType(binary.BigEndian.Uint16(data[0:2]))
 	sll.AddrType = binary.BigEndian.Uint16(data[2:4])
 	sll.AddrLen = binary.BigEndian.Uint16(data[4:6])
+	if sll.AddrLen > 8 {
+		return errors.New("Linux SLL address length exceeds the 8-byte address field")
+	}
 
 	sll.Addr = net.HardwareAddr(data[6 : sll.AddrLen+6])
 	sll.EthernetType = EthernetType(binary.BigEndian.Uint16(data[14:16]))
